@@ -1,6 +1,6 @@
 module verif/harness
 
-go 1.18
+go 1.21
 
 require gopkg.in/typ.v4 v4.0.0
 
